@@ -84,16 +84,33 @@ def seqf(x, n):
     return [x[str(i)] for i in range(1, n + 1)] if x else []
 
 
-def make_span(kind, L, other=False):
-    n = L + 1 if other else L
+def make_span(kind, L, other=False, mode=0):
+    """The common span, or (other) a span that differs from it: one period longer, or - for spans of three periods and more -
+    of the same length and with the same first and last labels but another label inside."""
+    n = L + 1 if other and not (mode == 1 and L >= 3) else L
+    inner = other and mode == 1 and L >= 3
     if kind == 'list':
-        return [f'p{i}' for i in range(n)]
+        s = [f'p{i}' for i in range(n)]
+        if inner:
+            s[1] = 'pX'
+        return s
     if kind == 'nparray':
-        return np.arange(100, 100 + n)
+        s = np.arange(100, 100 + n)
+        if inner:
+            s[1] = 1000
+        return s
     if kind == 'pdindex':
-        return pd.Index([f'q{i}' for i in range(n)])
+        s = [f'q{i}' for i in range(n)]
+        if inner:
+            s[1] = 'qX'
+        return pd.Index(s)
     if kind == 'pdperiod':
-        return pd.period_range(start='2000', periods=n, freq='Y')
+        s = list(pd.period_range(start='2000', periods=n, freq='Y'))
+        if inner:
+            s[1] = pd.Period('1990', freq='Y')
+        return pd.PeriodIndex(s)
+    if inner:
+        return [100, 1000] + list(range(102, 100 + n))
     return range(100, 100 + n)
 
 
@@ -109,7 +126,7 @@ def build(rec, variant):
     subs = {}
     src = tpos + cfg['offset']
     for i in range(1, n + 1):
-        span = make_span(variant.get('span', 'range'), L, other=not ok[i - 1])
+        span = make_span(variant.get('span', 'range'), L, other=not ok[i - 1], mode=(i + L + len(rec['hist'])) % 2)
         m = sub_class(lags[i - 1], leads[i - 1])(span)
         m.__dict__['_Y'][:] = [30.0 + 7 * i + p for p in range(len(span))]
         m.__dict__['_Z'][:] = [3.5 * i + p for p in range(len(span))]
